@@ -1262,6 +1262,10 @@ func Run(r *ev.Run) {
 	wg.Wait()
 	r.Extra("histories_planned", n)
 	r.Extra("wall_histories_s", time.Since(start).Seconds())
+	// second workload class: histories that contain FAILED rotations and destructions (faulted.go)
+	start = time.Now()
+	runFaultedHistories(r, workers)
+	r.Extra("wall_faulted_histories_s", time.Since(start).Seconds())
 	// non-vacuity: every oracle must have been exercised
 	q := func(quick, thorough int64) int64 {
 		if r.Thorough() {
